@@ -122,4 +122,82 @@ theorem gen_float_to_fp (fmt : Fmt) (v : Dy) (hb : fmt.signed = true → 1 ≤ f
       simp only [hmag', Bool.not_false, if_true]
       rfl
 
+/-! ### the whole domain: underflowing scales and subnormal products -/
+
+theorem tdiv_small (m : Int) (d : Nat) (h : m.natAbs < d) : Int.tdiv m (d : Int) = 0 := by
+  apply Int.natAbs_eq_zero.mp
+  rw [Int.natAbs_tdiv]
+  simp
+  exact Nat.div_eq_of_lt h
+
+/-- a value of magnitude below 1 truncates to 0 -/
+theorem trunc_small (m k : Int) (hk : k < 0) (h : m.natAbs < 2 ^ (-k).toNat) : truncScaled m k = 0 := by
+  unfold truncScaled num den
+  have : ¬ (0 ≤ k) := by omega
+  simp only [this, if_false]
+  have := tdiv_small m (2 ^ (-k).toNat) h
+  simpa using this
+
+/-- a 53-bit significand with an exponent below -53 is below 1 in magnitude -/
+theorem sig_small (m k : Int) (hm : m.natAbs ≤ 2 ^ 53) (hk : k < -53) : m.natAbs < 2 ^ (-k).toNat := by
+  have h1 : (2 : Nat) ^ 53 < 2 ^ (-k).toNat := Nat.pow_lt_pow_right (by decide) (by omega)
+  omega
+
+theorem magLt_small (m k : Int) (b : Nat) (hk : k < 0) (h : m.natAbs < 2 ^ (-k).toNat) : magLt m k b = true := by
+  unfold magLt
+  have : ¬ (0 ≤ k) := by omega
+  simp only [this, if_false, decide_eq_true_eq]
+  have h1 : (2 : Nat) ^ (-k).toNat ≤ 2 ^ (b + (-k).toNat) := Nat.pow_le_pow_right (by decide) (by omega)
+  omega
+
+theorem rne_bound (n : Int) (s : Nat) : (rne n s).natAbs ≤ n.natAbs + 1 := by
+  unfold rne
+  have hq : (n / (2 : Int) ^ s).natAbs ≤ n.natAbs := Int.natAbs_ediv_le_natAbs n _
+  dsimp only
+  split
+  · omega
+  · split
+    · omega
+    · split <;> omega
+
+/-- `float_to_fp(signed, n_bits, n_frac)(value)` as written in the source = the model's `floatToFp` for EVERY finite
+double `v = m * 2^e` (`|m| <= 2^53`, `-1074 <= e <= 971`: every finite double has such a representation) and every `n_frac`,
+including scales that underflow to 0.0 and products in the subnormal range (both sides then give 0) - only
+`1 << (n_bits - 1)` must be defined (a signed format has at least one bit) -/
+theorem gen_float_to_fp_all (fmt : Fmt) (v : Dy) (hb : fmt.signed = true → 1 ≤ fmt.bits)
+    (hm : v.m.natAbs ≤ 2 ^ 53) (hev : v.e ≤ 971) (hel : -1074 ≤ v.e) :
+    PyFun.float_to_fp dyOps fmt.signed (fmt.bits : Int) fmt.frac (FV.val (.fin v)) = errPy id (floatToFp fmt v) := by
+  by_cases hn : -1074 ≤ fmt.frac ∧ -1074 ≤ v.e + fmt.frac
+  · exact gen_float_to_fp fmt v hb hn.1 hn.2
+  -- the product is below 2^-1074 * 2^53 in magnitude: 0 on both sides
+  have hk : v.e + fmt.frac < -53 := by omega
+  have hs := sig_small v.m (v.e + fmt.frac) hm hk
+  have hmag : magLt v.m (v.e + fmt.frac) 1024 = true := magLt_small _ _ _ (by omega) hs
+  have ht : truncScaled v.m (v.e + fmt.frac) = 0 := trunc_small _ _ (by omega) hs
+  unfold PyFun.float_to_fp floatToFp
+  have hsb : (fmt.signed && fmt.bits == 0) = false := by
+    cases hsg : fmt.signed
+    · rfl
+    · have := hb hsg
+      simp; omega
+  have h1 : ¬ (1024 ≤ fmt.frac) := by omega
+  simp only [hsb, Bool.false_eq_true, if_false, dyOps, pow2f, h1, hmag, Bool.not_true, ht, bounds_eq]
+  by_cases hf : fmt.frac < -1074
+  · simp only [hf, if_true, mulScale, truncScaled, num, den]
+    rfl
+  · simp only [hf, if_false, mulScale, toDouble, hmag, Bool.not_true, Bool.false_eq_true]
+    by_cases hm0 : v.m = 0
+    · simp only [hm0, if_true, trunc_zero]; rfl
+    · have he : ¬ (-1074 ≤ v.e + fmt.frac) := by omega
+      simp only [hm0, he, if_false]
+      have hr := rne_bound v.m (-1074 - (v.e + fmt.frac)).toNat
+      have hb2 : (rne v.m (-1074 - (v.e + fmt.frac)).toNat).natAbs < 2 ^ (-(-1074 : Int)).toNat := by
+        have e1 : (-(-1074 : Int)).toNat = 1074 := rfl
+        rw [e1]
+        have h54 : (2 : Nat) ^ 53 + 1 ≤ 2 ^ 54 := by decide
+        have hlt : (2 : Nat) ^ 54 < 2 ^ 1074 := Nat.pow_lt_pow_right (by decide) (by decide)
+        omega
+      rw [trunc_small _ (-1074) (by decide) hb2]
+      rfl
+
 end Rig.C16
